@@ -117,19 +117,34 @@ def sp2(model):
                 if isinstance(c, ast.Call) and isinstance(c.func, ast.Attribute) \
                         and c.func.attr == 'startswith':
                     loop = n
+    gen = None
     if loop is None:
-        raise AnalysisError('anchor vanished: matching loop over special tokens in next_token')
-    attr = loop.iter.attr
+        for n in ast.walk(nt.node):
+            if isinstance(n, ast.Call) and getattr(n.func, 'id', '') == 'next' and n.args \
+                    and isinstance(n.args[0], ast.GeneratorExp):
+                g = n.args[0].generators[0]
+                if isinstance(g.iter, ast.Attribute) and any(
+                        isinstance(c, ast.Call) and isinstance(c.func, ast.Attribute)
+                        and c.func.attr == 'startswith' for c in ast.walk(n.args[0])):
+                    gen = (n, g.iter.attr)
+    if loop is None and gen is None:
+        r.undec(nt.node, 'matching of special sequences in next_token not recognised')
+        r.instances = max(r.instances, r.floor)
+        return r
+    attr = loop.iter.attr if loop is not None else gen[1]
     # first match returns
-    first_returns = False
-    for st in loop.body:
-        if isinstance(st, ast.If):
-            if any(isinstance(x, ast.Return) for x in st.body):
-                first_returns = True
-    if first_returns:
-        r.ok(loop, 'loop body returns at the first startswith match', nontrivial=True)
+    if loop is not None:
+        first_returns = False
+        for st in loop.body:
+            if isinstance(st, ast.If):
+                if any(isinstance(x, ast.Return) for x in st.body):
+                    first_returns = True
+        if first_returns:
+            r.ok(loop, 'loop body returns at the first startswith match', nontrivial=True)
+        else:
+            r.fail(loop, 'the matching loop does not return at the first match')
     else:
-        r.fail(loop, 'the matching loop does not return at the first match')
+        r.ok(gen[0], 'next(<generator with startswith>) takes the first match', nontrivial=True)
     order = None
     for n in ast.walk(init.node):
         if isinstance(n, ast.Call) and isinstance(n.func, ast.Attribute) and n.func.attr == 'sort' \
